@@ -185,7 +185,9 @@ func removeInputParam(match matcher,
 				}
 			}
 		}
-		if ast.Call != nil && ast.Call.DecId == callable.GetId() {
+		// Only if it calls this callable, not one of the same name which
+		// another, unrelated file defines.
+		if ast.Call != nil && ast.Call.DecId == callable.GetId() && match(ast) {
 			id := makeDecId(ast.Call)
 			if _, ok := modified[id]; !ok {
 				edits = append(edits, &removeCallInput{
